@@ -52,6 +52,7 @@ func main() {
 	fmt.Println("From Coq Require Import String List ZArith. Import ListNotations. Local Open Scope string_scope. Local Open Scope Z_scope.")
 
 	isMut := mutationTable(files, consts)
+	handlerOf := map[string]*ast.FuncDecl{} // "typeName.abiMethod" -> handler declaration (found through the Run switch)
 
 	for _, pc := range pcs {
 		abiPath := abiJSONPath(repo, methodsOf[pc.typeName+".ABI"])
@@ -61,6 +62,9 @@ func main() {
 			Fatal(fmt.Errorf("no Run method on %s", pc.typeName))
 		}
 		ri := analyseRun(run, consts)
+		for abiName, h := range ri.handlers {
+			handlerOf[pc.typeName+"."+abiName] = methodsOf[pc.typeName+"."+h.fn]
+		}
 		names := make([]string, 0, len(abi.Methods))
 		for n := range abi.Methods {
 			names = append(names, n)
@@ -103,7 +107,7 @@ func main() {
 
 	plain := methodsOf
 	lenGuard := requiredGasLenGuard(plain[".requiredGas"])
-	denomGuard, amountGuard := bankMsgSendGuards(methodsOf["precompileFunToken.bankMsgSend"])
+	denomGuard, amountGuard := bankMsgSendGuards(handlerOf["precompileFunToken.bankMsgSend"])
 	localMeter := false
 	if fd := plain[".OnRunStart"]; fd != nil && fd.Body != nil {
 		localMeter = strings.Contains(Nospace(fd.Body), "cacheCtx.WithGasMeter(sdk.NewGasMeter(gasLimit))")
@@ -116,8 +120,8 @@ func main() {
 	}
 	g := gethFacts(repo)
 
-	evmDenomGuard := sendToEvmDenomGuard(methodsOf["precompileFunToken.sendToEvm"])
-	erc20NulGuard := getErc20NulGuard(methodsOf["precompileFunToken.parseArgsGetErc20Address"])
+	evmDenomGuard := sendToEvmDenomGuard(handlerOf["precompileFunToken.sendToEvm"])
+	erc20NulGuard := getErc20NulGuard(handlerOf["precompileFunToken.getErc20Address"], methodsOf)
 	fmt.Printf("Definition current_guards : panic_guards := {|\n  g_len := %s;\n  g_denom := %s;\n  g_amount := %s;\n  g_evm_denom := %s;\n  g_erc20_nul := %s |}.\n",
 		CoqBool(lenGuard), CoqBool(denomGuard), CoqBool(amountGuard), CoqBool(evmDenomGuard), CoqBool(erc20NulGuard))
 	fmt.Printf("Definition current_facts : facts := {|\n  f_funtoken := funtoken_facts;\n  f_wasm := wasm_facts;\n  f_oracle := oracle_facts;\n  f_guards := current_guards;\n")
@@ -592,19 +596,56 @@ func sendToEvmDenomGuard(fd *ast.FuncDecl) bool {
 	return false
 }
 
-// parseArgsGetErc20Address: if strings.ContainsRune(bankDenom, 0) { …; return } at the top level,
-// before the ValidateDenom / tokenfactory fallback
-func getErc20NulGuard(fd *ast.FuncDecl) bool {
-	if fd == nil || fd.Body == nil {
+// getErc20Address: NUL characters are rejected before the index lookup, either in the handler
+// itself or in a p.<parser>(args) helper it calls before the lookup:
+//   if strings.ContainsRune(bankDenom, 0) { err = …; return }   ahead of the ValidateDenom / tokenfactory fallback
+func getErc20NulGuard(h *ast.FuncDecl, methodsOf map[string]*ast.FuncDecl) bool {
+	if h == nil || h.Body == nil {
 		return false
 	}
-	for _, s := range fd.Body.List {
-		if is, ok := s.(*ast.IfStmt); ok && is.Init == nil && Nospace(is.Cond) == "strings.ContainsRune(bankDenom,0)" && returnsInside(is.Body) {
-			// the error must be set before returning
-			return strings.Contains(Nospace(is.Body), "err=")
+	lookup := token.NoPos
+	ast.Inspect(h.Body, func(n ast.Node) bool {
+		if c, ok := n.(*ast.CallExpr); ok && strings.HasSuffix(Nospace(c.Fun), ".ExactMatch") && lookup == token.NoPos {
+			lookup = c.Pos()
 		}
-		if is, ok := s.(*ast.IfStmt); ok && strings.Contains(Nospace(is), "ValidateDenom") {
-			return false // the fallback comes first
+		return true
+	})
+	cands := []*ast.FuncDecl{}
+	recv := recvName(h)
+	ast.Inspect(h.Body, func(n ast.Node) bool {
+		if c, ok := n.(*ast.CallExpr); ok && (lookup == token.NoPos || c.Pos() < lookup) {
+			if sel, ok := c.Fun.(*ast.SelectorExpr); ok && Src(sel.X) == "p" {
+				if fd := methodsOf[recv+"."+sel.Sel.Name]; fd != nil && fd.Body != nil {
+					cands = append(cands, fd)
+				}
+			}
+		}
+		return true
+	})
+	inFunc := func(fd *ast.FuncDecl, before token.Pos) bool {
+		for _, s := range fd.Body.List {
+			if before != token.NoPos && s.Pos() > before {
+				break
+			}
+			is, ok := s.(*ast.IfStmt)
+			if !ok {
+				continue
+			}
+			if is.Init == nil && Nospace(is.Cond) == "strings.ContainsRune(bankDenom,0)" && returnsInside(is.Body) {
+				return strings.Contains(Nospace(is.Body), "err=") || strings.Contains(Nospace(is.Body), "returnnil,")
+			}
+			if strings.Contains(Nospace(is), "ValidateDenom") {
+				return false // the fallback comes first
+			}
+		}
+		return false
+	}
+	if inFunc(h, lookup) {
+		return true
+	}
+	for _, fd := range cands {
+		if inFunc(fd, token.NoPos) {
+			return true
 		}
 	}
 	return false
